@@ -259,7 +259,7 @@ func externalFiles(w *World, rows []map[string]any, bigPad bool) error {
 }
 
 func externalFile(w *World, rows []map[string]any, perBlock, variant int, bigPad bool) error {
-	v := variant % 7
+	v := variant % 10
 	var file bytes.Buffer
 	var blocks []bs.DataBlockMetadata
 	var sections [][]byte
@@ -314,6 +314,12 @@ func externalFile(w *World, rows []map[string]any, perBlock, variant int, bigPad
 			sec = encodeSection(nil, sizedFilter(bt, 0.01), sizedFilter(bft, 0.01))
 		default:
 			sec = encodeSection(sizedFilter(bf, 0.01), sizedFilter(bt, 0.01), sizedFilter(bft, 0.01))
+		}
+		// mixed files: some blocks carry a section, one does not (first / middle / last block)
+		nb := (len(rows) + perBlock - 1) / perBlock
+		bi := i / perBlock
+		if (v == 7 && bi == nb-1) || (v == 8 && bi == 0) || (v == 9 && bi == nb/2) {
+			sec = nil
 		}
 		blocks = append(blocks, b)
 		sections = append(sections, sec)
